@@ -131,7 +131,10 @@ type FaultReader struct {
 	Read_   int   // bytes delivered so far
 	Calls   int
 	Once    bool // the failure happens once; later reads succeed again (a transient entropy failure)
+	Partial bool // the failing call delivers the bytes up to After TOGETHER with the error (n > 0, err != nil)
 	failed  bool
+	// FailedLen is the length of the buffer of the call that was answered with the error (0: none yet)
+	FailedLen int
 }
 
 func (f *FaultReader) Read(p []byte) (int, error) {
@@ -139,8 +142,26 @@ func (f *FaultReader) Read(p []byte) (int, error) {
 	if len(p) == 0 {
 		return 0, nil
 	}
+	if f.Partial && f.After >= 0 && f.Read_ < f.After && f.Read_+len(p) > f.After && !(f.Once && f.failed) {
+		n := f.After - f.Read_
+		if f.OneByte && n > 1 {
+			n = 1
+		}
+		m, _ := f.Src.Read(p[:n])
+		f.Read_ += m
+		if f.Read_ >= f.After {
+			f.failed = true
+			f.FailedLen = len(p)
+			if f.Err != nil {
+				return m, f.Err
+			}
+			return m, ErrInjected
+		}
+		return m, nil
+	}
 	if f.After >= 0 && f.Read_ >= f.After && !(f.Once && f.failed) {
 		f.failed = true
+		f.FailedLen = len(p)
 		if f.Err != nil {
 			return 0, f.Err
 		}
